@@ -85,6 +85,16 @@ func c13DeleteSelf(c *Ctx) *RuleResult {
 						continue
 					}
 				}
+				ownRecv := false
+				if cs.Unit.Decl.Recv != nil && len(cs.Unit.Decl.Recv.List[0].Names) > 0 {
+					if sel, ok := ast.Unparen(call.Fun).(*ast.SelectorExpr); ok && exprStr(sel.X) == cs.Unit.Decl.Recv.List[0].Names[0].Name {
+						ownRecv = true
+					}
+				}
+				if a == "false" && ownRecv {
+					r.ok(cc, posOf(p, call), "a directory emptying itself stays linked and is not deleted")
+					continue
+				}
 				if a == "true" {
 					r.ok(cc, posOf(p, call), "detached child directories are deleted")
 				} else {
@@ -548,6 +558,7 @@ func c19ReplayStateID(c *Ctx) *RuleResult {
 		}
 	}
 	isn := p.LookupFunc(nfsPkg, "isNextStateID")
+	computeTxForwarders(p)
 	for _, u := range p.UnitsIn(nfsPkg) {
 		info := u.Info()
 		ast.Inspect(u.Decl.Body, func(n ast.Node) bool {
